@@ -110,13 +110,7 @@ def main(tier: str) -> int:
                                    "framing": "delimited"}, f"grouped, schedule {list(sched)}: {type(ex).__name__}", {"stream": label, "schedule": list(sched)})
         # buffered seekable sources, as the documented input contract requires
         with tempfile.TemporaryDirectory(dir=env.workdir()) as d:
-            p = os.path.join(d, "s.jelly")
-            with open(p, "wb") as f:
-                f.write(data)
-            with gzip.open(p + ".gz", "wb") as f:
-                f.write(data)
-            for kind, opener in (("BytesIO", lambda: io.BytesIO(data)), ("BufferedReader", lambda: open(p, "rb")),
-                                 ("BufferedReader-small", lambda: open(p, "rb", buffering=16)), ("gzip", lambda: gzip.open(p + ".gz", "rb"))):
+            for kind, opener in framing.seekable_sources(data, d):
                 for integ in ("generic", "rdflib"):
                     evaluations += 1
                     try:
@@ -125,7 +119,7 @@ def main(tier: str) -> int:
                         if got != want[integ]:
                             run.violation({"source": kind, "integ": integ, "clause": "result-differs"}, f"{kind}: {len(got)} vs {len(want[integ])} items", {"stream": label})
                     except Exception as ex:  # noqa: BLE001
-                        run.violation({"source": kind, "integ": integ, "clause": "raised"}, f"{kind}: {type(ex).__name__}: {ex}", {"stream": label})
+                        run.violation({"source": kind, "integ": integ, "clause": "raised"}, f"{kind}: {type(ex).__name__}: {str(ex)[:100]}", {"stream": label})
         if len(samples) < 3:
             samples.append({"stream": label, "bytes": len(data), "schedules": len(sched_list), "example": list(sched_list[len(sched_list) // 3])})
     return run.finish({
